@@ -56,6 +56,8 @@ let bits_of = function At x -> z_of_x x | _ -> failwith "expected x-number"
 
 let ty_of = function
   | At "I" -> TInt | At "F" -> TFloat | At "S" -> TStr | At "B" -> TBool | At "R" -> TRTime
+  | At "T" -> TOpaque (n_of (At "0")) | At "P" -> TOpaque (n_of (At "1"))
+  | At "K" -> TOpaque (n_of (At "2")) | At "A" -> TOpaque (n_of (At "3"))
   | _ -> failwith "bad type"
 let val_of = function
   | Ls [At "I"; x; l] -> VInt (signed_of x, bool_of l)
@@ -63,6 +65,7 @@ let val_of = function
   | Ls [At "S"; s; ns; l] -> VStr0 (str_of s, bool_of ns, bool_of l)
   | Ls [At "B"; b; l] -> VBool (bool_of b, bool_of l)
   | Ls [At "R"; x; l] -> VRTime (signed_of x, bool_of l)
+  | Ls [At "O"; k; s] -> VOpaque (n_of k, str_of s)
   | x -> failwith ("bad value " ^ sexp_to_string x)
 let name_of = function
   | Ls [At "l"; k] -> NLocal (n_of k)
@@ -117,6 +120,8 @@ let rec stmt_of (x : sexp) : stmt =
   | Ls [At "nop"] -> SNop
   | Ls [At "add"; o; h; e] -> SAdd (n_of o, n_of h, expr_of e)
   | Ls [At "restart"; ok] -> SRestart (bool_of ok)
+  | Ls [At "unsetwild"; o; pre] -> SUnsetWild (n_of o, str_of pre)
+  | Ls [At "synth"; gb; e] -> SSynthetic (n_of gb, expr_of e)
   | Ls [At "error"; ok; gs; gr; c; a] -> SError (bool_of ok, n_of gs, n_of gr, opt_expr c, opt_expr a)
   | Ls (At "switch" :: c :: d :: cases) ->
       SSwitch (expr_of c,
@@ -145,6 +150,7 @@ let sval = function
   | VStr0 (s, ns, l) -> Ls [At "S"; Sq (hex_of_str s); sb ns; sb l]
   | VBool (b, l) -> Ls [At "B"; sb b; sb l]
   | VRTime (z, l) -> Ls [At "R"; At (x_of_z (to_bits64 z)); sb l]
+  | VOpaque (k, s) -> Ls [At "O"; At (string_of_int (int_of_n k)); Sq (hex_of_str s)]
 let soval = function Some v -> sval v | None -> Ls [At "dangling"]
 let nobjs = ref 0
 let ssnap (s : snapshot) : sexp =
